@@ -23,7 +23,10 @@ WEAK = {  # switch -> the invariant TLC must refute with it (checked alone: dete
     "SaveBeforeValidate": ["OnlyCanonical"],
     "NoRedo": ["LiarsDropped"],
     "SeenCommitUnchecked": ["CleanHandover"],
-    "NilSlotAddressUnchecked": ["CleanHandover"],   # a genuine nil precommit re-labelled with another validator's address
+    "NilSlotAddressUnchecked": ["CleanHandover"],
+    # bpRequester.reset counts a blockless requester as pending AGAIN: pool.numPending leaks, and at
+    # maxPendingRequests no requester is created any more (scaled limits in the cfg)
+    "RedoAlwaysCountsPending": ["PendingCounterExact"],   # a genuine nil precommit re-labelled with another validator's address
     # ValidateBlock(first) and the part-set-header comparison each catch a block whose LastCommit differs only in
     # fields Commit.Hash() does not cover (commit height / BlockID); the property breaks only when BOTH are gone
     "NoValidateNoPartSet": ["OnlyCanonical"],
@@ -95,6 +98,33 @@ def sched_status(T):
     return out
 
 
+CHURN_T, CHURN_W, CHURN_ROUNDS, CHURN_TMAX = 24, 21, 31, 26
+
+
+def sched_churn():
+    """Amplifier for leaks in the pool's bookkeeping (numPending, per-peer numPending, the 600 / 20 limits,
+    which are Go constants): CHURN_ROUNDS silent peers one after the other, each claiming CHURN_W blocks,
+    each given a full window of 20 requests, each timed out; then one honest peer with CHURN_T blocks that
+    answers everything.  A leak of one count per redone request reaches maxPendingRequests = 600 after 30
+    rounds: no requester above CHURN_W is ever created and the node stays in the sync for ever.  Second
+    variant: the silent peers first deliver the next two blocks (their requesters hold blocks when reset)."""
+    out = []
+    for variant in ("silent", "mixed"):
+        peers = [{"p": "h1", "honest": True}] + [{"p": "s%d" % k, "honest": False} for k in range(1, CHURN_ROUNDS + 1)]
+        steps = []
+        for k in range(1, CHURN_ROUNDS + 1):
+            p = "s%d" % k
+            steps += [{"a": "Join", "p": p}, {"a": "Status", "p": p, "base": 1, "height": CHURN_W},
+                      {"a": "WaitReq", "p": p, "h": 20}]
+            if variant == "mixed" and k % 3 == 0:
+                # (answers the two lowest heights it was asked for; what they are depends on the run)
+                steps += [{"a": "Response", "p": p, "h": 0, "kind": "H"}, {"a": "Response", "p": p, "h": 0, "kind": "H"}]
+            steps += [{"a": "Timeout", "p": p}]
+        steps += [{"a": "Join", "p": "h1"}, {"a": "Status", "p": "h1", "base": 1, "height": CHURN_T}]
+        out.append({"id": "churn-" + variant, "src": "churn", "T": CHURN_T, "peers": peers, "steps": steps})
+    return out
+
+
 def sched_pairs(T, rng, n):
     """Both blocks of a pair from two different liars (first of kind a at h, second of kind b at h+1)."""
     out = []
@@ -154,10 +184,10 @@ def peers_of_cfg(ctx, cfg):
 
 
 # ---------------------------------------------------------------------------- harness
-def run_harness(ctx, binp, label, vals, scheds, par):
+def run_harness(ctx, binp, label, vals, scheds, par, tmax=TMAX):
     inp = os.path.join(ctx.work, "c13-in-%s.json" % label)
     with open(inp, "w") as f:
-        json.dump({"vals": vals, "tmax": TMAX, "par": par, "scheds": scheds,
+        json.dump({"vals": vals, "tmax": tmax, "par": par, "scheds": scheds,
                    "kinds": LIE_KINDS, "status": [[1, 0], [1, 0], [1, 1], [1, -2], [2, 0], [1, 2]]}, f)
     out = ctx.subdir("c13-out-" + label)
     rc, txt = ctx.run_test(binp, "^TestVerifC13$", {"VERIF_IN": inp, "VERIF_OUT": out}, timeout=1500, label="c13:" + label)
@@ -250,8 +280,8 @@ def run(ctx):
     binp = ctx.go_build_test("blockchain/v0", HARNESS)
 
     # ---- 1. design spec: exhaustive configs, non-vacuity, liveness -------------------------
-    exh = ["C13_small.cfg", "C13_liars.cfg"] if quick else \
-          ["C13_small.cfg", "C13_t4.cfg", "C13_liars.cfg", "C13_quick.cfg"]
+    exh = ["C13_small.cfg", "C13_liars.cfg", "C13_pending.cfg"] if quick else \
+          ["C13_small.cfg", "C13_t4.cfg", "C13_liars.cfg", "C13_pending.cfg", "C13_quick.cfg"]
     fast = os.environ.get("VERIF_C13_FAST") == "1"      # development only: skip the exhaustive configs
     if fast:
         exh = ["C13_small.cfg"]
@@ -349,11 +379,11 @@ def run(ctx):
     # ---- 3. run on the real code -----------------------------------------------------------
     batches = []
     if quick:
-        batches.append(("A", VALS_A, sched_matrix(4) + sched_late(4) + sched_status(4) + attack + sims + sched_pairs(4, rng, 16)
+        batches.append(("A", VALS_A, sched_churn() + sched_matrix(4) + sched_late(4) + sched_status(4) + attack + sims + sched_pairs(4, rng, 16)
                         + sched_random(seed, 30)))
         batches.append(("C", VALS_C, sched_matrix(3)[::2] + sched_late(3) + sched_random(seed + 1, 16)))
     else:
-        batches.append(("A", VALS_A, sched_matrix(4) + sched_matrix(5) + sched_late(4) + sched_late(5) + sched_status(4) + sched_status(5) + attack + sims
+        batches.append(("A", VALS_A, sched_churn() + sched_matrix(4) + sched_matrix(5) + sched_late(4) + sched_late(5) + sched_status(4) + sched_status(5) + attack + sims
                         + sched_pairs(4, rng, 150) + sched_random(seed, 350)))
         batches.append(("C", VALS_C, sched_matrix(4) + sched_late(4) + sched_pairs(3, rng, 50) + sched_random(seed + 1, 150)))
         batches.append(("B", VALS_B, sched_matrix(3) + sched_late(3) + sched_random(seed + 2, 60)))
@@ -363,7 +393,8 @@ def run(ctx):
     samples = []
     crashes = []
     for label, vals, scheds in batches:
-        rows, crashed = run_harness(ctx, binp, label, vals, scheds, par)
+        # (batch A carries the churn family, which needs a chain of CHURN_TMAX blocks)
+        rows, crashed = run_harness(ctx, binp, label, vals, scheds, par, tmax=CHURN_TMAX if label == "A" else TMAX)
         if crashed:
             crashes.append(crashed)
         if rows:
